@@ -77,12 +77,12 @@ Lemma a_paren2_toks :
 Proof. reflexivity. Qed.
 
 Theorem ex_assign_paren2 :
-  let vs1 := [(s "x", {| v_tokens := [TText (s "x")]; v_data := @ANone float |})] in
+  let vs1 : vars float := [] in
   let vs2 := [(s "x", {| v_tokens := [TText (s "x")]; v_data := AItem (INumber 3 Decimal) |})] in
   post a_paren2 = a_paren2 /\
-  parse (post a_paren2) [] = (PAst (AAssignment (s "x") (ast_of e_paren2)), vs1) /\
+  parse (post a_paren2) [] = (PAst (AAssignment (s "x") [TText (s "x")] (ast_of e_paren2)), vs1) /\
   forall bexec cfg,
-    execute_ast bexec cfg vs1 (AAssignment (s "x") (ast_of e_paren2))
+    execute_ast bexec cfg vs1 (AAssignment (s "x") [TText (s "x")] (ast_of e_paren2))
     = Ok (IOk (AItem (INumber 3 Decimal)), vs2).
 Proof.
   cbv zeta. split; [vm_compute; reflexivity|].
@@ -183,12 +183,12 @@ Theorem c02_repaired_examples :
   (* (((1+2))) *)
   reads_as [LP; LP; LP; num 1; PLUS; num 2; RP; RP; RP] (ast_of e_paren3) 3 /\
   (* x = ((1+2)) *)
-  (let vs1 := [(s "x", {| v_tokens := [TText (s "x")]; v_data := @ANone float |})] in
+  (let vs1 : vars float := [] in
    let vs2 := [(s "x", {| v_tokens := [TText (s "x")]; v_data := AItem (INumber 3 Decimal) |})] in
    post a_paren2 = a_paren2 /\
-   parse (post a_paren2) [] = (PAst (AAssignment (s "x") (ast_of e_paren2)), vs1) /\
+   parse (post a_paren2) [] = (PAst (AAssignment (s "x") [TText (s "x")] (ast_of e_paren2)), vs1) /\
    forall bexec cfg,
-     execute_ast bexec cfg vs1 (AAssignment (s "x") (ast_of e_paren2))
+     execute_ast bexec cfg vs1 (AAssignment (s "x") [TText (s "x")] (ast_of e_paren2))
      = Ok (IOk (AItem (INumber 3 Decimal)), vs2)) /\
   (* 3 * - 5 + 2 *)
   reads_as [num 3; MUL; MINUS; num 5; PLUS; num 2] (sast_of s_mul_neg) (-13) /\
